@@ -323,7 +323,9 @@ def structural_facts():
     for name in ("route", "summary", "accessibility"):
         b = function_body(srv, r'server\.resource\["\^/v2/%s\[/\]\?\$"\]\["GET"\]\s*=\s*\[[^\]]*\]\s*\([^)]*\)\s*' % name)
         handlers[name] = b
-        facts["handler_%s_own_calculator" % name] = len(re.findall(r"Calculator\s+calculator\s*\(\s*transitData\s*,\s*\*geoFilter\s*\)\s*;", b)) == 1
+        # one automatic (not static, not thread_local, not a reference to a shared one) Calculator per invocation
+        facts["handler_%s_own_calculator" % name] = len(re.findall(r"(?<![\w&*])Calculator\s+calculator\s*\(\s*transitData\s*,\s*\*geoFilter\s*\)\s*;", b)) == 1 \
+            and not re.search(r"\b(static|thread_local)\s+(const\s+)?Calculator\b", b) and not re.search(r"Calculator\s*[&*]", b)
         facts["handler_%s_fast_error_first" % name] = bool(re.search(r"std::string\s+response\s*=\s*getFastErrorResponse\(dataStatus\);\s*if\s*\(!response\.empty\(\)\)", b))
     norm = lambda b: re.sub(r"\s+", " ", re.sub(r"ResultToV2SummaryResponse|ResultToV2Response", "R", re.sub(r"summary|route", "X", b)))
     facts["summary_mirrors_route"] = norm(handlers["route"]) == norm(handlers["summary"])
